@@ -465,6 +465,9 @@ class BindStateBase:
     def _handle_wait_timer_expired(self, timeout: float) -> None:
         """Process an overrun of the wait timer when waiting for a Message."""
 
+        if self._fut.done():  # e.g. the state's other wait timer expired just before
+            return
+
         msg = (
             f"{self._context}: Failed to transition to {self._next_ctx_state}: "
             f"expected message not received after {timeout} secs"
